@@ -75,7 +75,7 @@ def construct_cases(rng, n, ctx):
         names = ['%s|r%d' % (ens, k + 1) for k in range(nch)] if nch > 1 or rng.random() < 0.6 else [ens]
         idls = [gen.make_idl(rng, str(rng.choice(gen.IDL_CLASSES)), int(rng.integers(5, 14))) for _ in names]
         samples = [rng.normal(size=len(il)) * 10 ** rng.uniform(-3, 3) + rng.uniform(-5, 5) for il in idls]
-        kind = str(rng.choice(['valid', 'valid', 'noidl', 'ndarray_idl', 'dupname', 'intname', 'unsorted', 'dupcfg', 'lenmismatch', 'short',
+        kind = str(rng.choice(['valid', 'valid', 'noidl', 'ndarray_idl', 'dupname', 'intname', 'unsorted', 'descending', 'dupcfg', 'lenmismatch', 'short',
                                'two_ens', 'idlcount', 'namecount']))
         namekinds = ['str'] * len(names)
         use_idl = True
@@ -98,6 +98,13 @@ def construct_cases(rng, n, ctx):
             l2[p], l2[p + 1] = l2[p + 1], l2[p]
             idls[k] = l2
             idl_arg[k] = l2
+        elif kind == 'descending':
+            # the whole list backwards: equally spaced lists stay equally spaced (the branch that turns a list into a range); as list, array or range
+            k = int(rng.integers(0, len(names)))
+            l2 = list(idls[k])[::-1]
+            idls[k] = l2
+            form = str(rng.choice(['list', 'ndarray', 'range'])) if len(set(np.diff(l2))) == 1 else str(rng.choice(['list', 'ndarray']))
+            idl_arg[k] = l2 if form == 'list' else np.array(l2) if form == 'ndarray' else range(l2[0], l2[-1] + (l2[1] - l2[0]), l2[1] - l2[0])
         elif kind == 'dupcfg':
             k = int(rng.integers(0, len(names)))
             l2 = list(idls[k])
@@ -151,6 +158,8 @@ def covobs_cases(rng, n, ctx):
         cov = cov * scale
         name = 'sys%d' % i
         means = [float(np.round(rng.uniform(-2, 2), 3)) for _ in range(dim)]
+        if rng.random() < 0.3:
+            means[int(rng.integers(0, dim))] = int(rng.integers(-3, 4))        # a mean typed as an integer is a number like any other
         arg = cov
         psdmargin = False
         if kind == 'valid1d':
